@@ -38,6 +38,15 @@ R = [
  ("C17f-closed-form-window-bounds-short-signal", [(UT, "        first = np.arange(0, self.ns - self.overlap, self.nswin - self.overlap)\n",
                                                    "        first = np.arange(0, max(self.ns - self.overlap, 1), self.nswin - self.overlap)\n")],
   "WindowGenerator computes its window bounds once as two vectors; there is always a first window (a signal no longer than the overlap gets one clipped window)"),
+ ("C18f-convolve-same-mode-short-transform-wraparound", [(FO, "        first, nout = ((nsw - 1) // 2, nsx)\n", "        first, nout = ((nsw - 1) // 2, nsx)\n        nlin = nsx + nsw // 2  # the wrapped tail of the linear convolution must stay below `first`\n"),
+                                                          (FO, "        first, nout = (0, nsx + nsw)\n", "        first, nout = (0, nsx + nsw)\n        nlin = nsx + nsw\n"),
+                                                          (FO, "    ns = ns_optim_fft(max(first + nout, nsw))\n", "    ns = ns_optim_fft(max(nlin, nsw))\n")],
+  "convolve zero-pads inside rfft and, in 'same' mode, uses the shortest transform whose wrapped tail does not reach the returned window (nsx + nsw // 2); fast sizes tabulated once at import"),
+ ("C19f-sync-timestamps-stale-matched-index", [(UT, "    fcn_a2b, drift_ppm = _interp_fcn(tsa[ia], tsb[ib[ia]], linear=linear)\n",
+                                                "    ia = np.where(ib >= 0)[0]  # the second pass stored further matches\n    fcn_a2b, drift_ppm = _interp_fcn(tsa[ia], tsb[ib[ia]], linear=linear)\n")],
+  "first assignment pass vectorised, the matched index computed once per pass and re-used for the fits and the output"),
+ ("C20f-savgol-blocked-buffer-stale-last-window", [(SM, "            last_coeffs = np.matmul(coeffs[-1], y[-window:])\n", "            last_coeffs = np.matmul(coeffs[n - 1], y[-window:])\n")],
+  "non_uniform_savgol vectorised over sliding-window views, processed in blocks with re-used buffers; the right border uses the last window FILLED in the last block"),
 ]
 
 if __name__ == "__main__":
